@@ -14,17 +14,43 @@ From HV Require Import Events EventsProofs.
 
 (* [h] is the history of the event stream's inbox in the order it is handled
    (the inbox serialises Subscribe, Unsubscribe and broadcasts: C01/C02), each
-   message with the registry as it is at that moment; [p] is any actor that is
-   alive throughout; [subs] is any duplicate-free initial subscriber set.  The
-   events that reach [p]'s inbox are exactly the events that lie after a
+   message with the registry as it is at that moment; [subs] is any
+   duplicate-free initial subscriber set; [p] is any PID whose actor is alive
+   whenever an event is handled between a [Sub p] and the next [Unsub p]
+   ([live_while_on]; it may be dead, or not yet spawned, at any other time).
+   The events that reach [p]'s inbox are exactly the events that lie after a
    [Sub p] and before the next [Unsub p] — PIDs compared by address and id —
-   each once, in that order; whatever else subscribes, unsubscribes or dies. *)
+   each once, in that order; whatever else subscribes, unsubscribes, stops or
+   is spawned meanwhile. *)
 Theorem C12_once_between_sub_and_unsub :
+  forall (es p : pid) (h : list (view * esmsg)) (subs : list pid),
+    NoDup subs -> live_while_on p (bool_decide (p ∈ subs)) h ->
+    delivered_to p (es_run es subs h).2 = between p (bool_decide (p ∈ subs)) (h.*2).
+Proof. exact once_between_while_subscribed. Qed.
+Print Assumptions C12_once_between_sub_and_unsub.
+
+(* in particular for an actor that is alive throughout *)
+Theorem C12_once_between_sub_and_unsub_alive :
   forall (es p : pid) (h : list (view * esmsg)) (subs : list pid),
     NoDup subs -> Forall (fun x => live x.1 p) h ->
     delivered_to p (es_run es subs h).2 = between p (bool_decide (p ∈ subs)) (h.*2).
 Proof. exact once_between_sub_and_unsub. Qed.
-Print Assumptions C12_once_between_sub_and_unsub.
+Print Assumptions C12_once_between_sub_and_unsub_alive.
+
+(* with no premise on [p] at all — actors that stop while subscribed, actors
+   spawned again under the same id, PIDs on another node: what is handed to [p]
+   (pushed on its inbox, or given to the remote for a foreign address) are the
+   events between a [Sub p] and the next [Unsub p] that are handled while [p]
+   can be reached; the first event that cannot reach it ends the subscription,
+   and a new actor under the same id receives nothing until a new [Sub p].
+   The second statement is the same for inbox deliveries alone. *)
+Theorem C12_subscription_follows_the_actor :
+  (forall es p h subs, NoDup subs ->
+     handed_to p (es_run es subs h).2 = between_g reachable p (bool_decide (p ∈ subs)) h) /\
+  (forall es p h subs, NoDup subs ->
+     delivered_to p (es_run es subs h).2 = between_g liveb p (bool_decide (p ∈ subs)) h).
+Proof. split; [exact handed_between_g | exact delivered_between_g]. Qed.
+Print Assumptions C12_subscription_follows_the_actor.
 
 (* subscribing the same PID twice changes nothing: not the subscriber set
    (first statement), hence not a single later forward (second) *)
@@ -77,7 +103,8 @@ Print Assumptions C12_pointer_keys_refuted.
 
 (* the predicates evaluated on the implementation are true of every model run *)
 Theorem C12_oracle_holds_of_model :
-  forall np hist, oracle12_on np hist (model12 np hist) = true.
+  forall remote np ops,
+    np <= 50 -> oracle12_on remote np ops (model12 remote np ops).1 (model12 remote np ops).2 = true.
 Proof. exact oracle12_holds_of_model. Qed.
 Print Assumptions C12_oracle_holds_of_model.
 
